@@ -441,6 +441,11 @@ def context_facts(eff, cb):
     out = []
     for c in parent.calls():
         cn = canon(c.target or "")
+        if cn.split("::")[-1] == "then" and "bool" in cn and len(c.t["args"]) == 2:
+            a1 = c.t["args"][1]
+            if a1["k"] in ("move", "copy") and a1["pl"]["l"] == clo_local and "p" not in a1["pl"]:
+                out.extend(rels_of_bool(deep_strip(c.arg(0)), True))      # c.then(|| ..): the closure runs only when c holds
+            continue
         if "Iterator::" not in cn or cn.split("::")[-1] not in ITER_CLOSURE_STAGES:
             continue
         if not any(a["k"] in ("move", "copy") and a["pl"]["l"] == clo_local and "p" not in a["pl"] for a in c.t["args"][1:]):
